@@ -45,7 +45,7 @@ def lst(tk, f):
 
 def scalar(tk):
     k = tk.next()
-    return f"(ScF {q(tk)})" if k == 'F' else f"(ScI ({int(tk.next())})%Z)"
+    return f"(ScF {q(tk)})" if k == 'F' else f"(ScI ({int(tk.next())})%Z)"      # I U Z L H: C++ integer types, all ScI
 
 
 def expr(tk):
